@@ -342,7 +342,9 @@ def rule_inherit(ctx: Ctx):
     rep.floor("C16.inherit", "state registrations in add_inherited", n, 1)
 
 
-def rule_defwrite(ctx: Ctx):
+def rule_defwrite(ctx: Ctx, rule: str = "C16.defwrite", only: "Optional[Set[str]]" = None):
+    """`only`: restrict the first part (writes on definition objects) to these definition classes and skip the class-attribute part
+    (used when another property shares the rule for the definition objects it depends on)."""
     rep = ctx.rep
     g = callgraph(ctx)
     roots = [ctx.fn(k) for k in ("StateMachine.__init__", "StateMachine.__setstate__", "StateMachine.send", "Event.__call__", "StateMachine.add_listener",
@@ -376,7 +378,7 @@ def rule_defwrite(ctx: Ctx):
             if t.cls is not None and t.cls.name in DEFINITION_CLASSES and t.name in ("__init__", "__new__", "__post_init__"):
                 continue
             todo.append(t)
-    rep.floor("C16.defwrite", "functions reachable from instance-time entry points", len(reach), 50)
+    rep.floor(rule, "functions reachable from instance-time entry points", len(reach), 50)
     n_w = 0
     for fn in sorted(reach, key=lambda f: f.key):
         ctor_of_def = fn.cls is not None and fn.cls.name in DEFINITION_CLASSES and fn.name in ("__init__", "__new__", "__post_init__")
@@ -406,9 +408,9 @@ def rule_defwrite(ctx: Ctx):
             owner_types = set(types)
             if isinstance(tgt, ast.Attribute):
                 owner_types |= ctx.r.typeof(tgt.value, fn, ())
-            hit = owner_types & DEFINITION_CLASSES
+            hit = owner_types & (DEFINITION_CLASSES if only is None else only)
             if not hit and isinstance(tgt, ast.Name) and tgt.id in def_alias and isinstance(n, ast.Call):
-                hit = def_alias[tgt.id][0]  # mutation through a local alias of the definition's own container
+                hit = def_alias[tgt.id][0] & (DEFINITION_CLASSES if only is None else only)  # mutation through a local alias of the definition's own container
             if not hit:
                 continue
             recv = show(tgt) if not (isinstance(tgt, ast.Name) and tgt.id in def_alias) else def_alias[tgt.id][1]
@@ -425,15 +427,17 @@ def rule_defwrite(ctx: Ctx):
             key = (owner_fn, attr if attr not in ("[...]",) else (tgt.attr if isinstance(tgt, ast.Attribute) else attr))
             key2 = (owner_fn, tgt.attr if isinstance(tgt, ast.Attribute) else attr)
             if key in DEFWRITE_OK or key2 in DEFWRITE_OK:
-                rep.ok("C16.defwrite", fn.loc(n), f"{fn.qualname} writes `{recv}.{attr}` - triaged: {DEFWRITE_OK.get(key) or DEFWRITE_OK.get(key2)}")
+                rep.ok(rule, fn.loc(n), f"{fn.qualname} writes `{recv}.{attr}` - triaged: {DEFWRITE_OK.get(key) or DEFWRITE_OK.get(key2)}")
                 continue
             fresh = _fresh_receiver(ctx, fn, tgt)
             if fresh:
-                rep.ok("C16.defwrite", fn.loc(n), f"{fn.qualname} writes `{recv}.{attr}` on an object it has just created ({fresh})")
+                rep.ok(rule, fn.loc(n), f"{fn.qualname} writes `{recv}.{attr}` on an object it has just created ({fresh})")
                 continue
-            rep.violation("C16.defwrite", fn.loc(n), f"instance-time code `{fn.qualname}` writes `{recv}.{attr}` on a definition object "
+            rep.violation(rule, fn.loc(n), f"instance-time code `{fn.qualname}` writes `{recv}.{attr}` on a definition object "
                           f"({', '.join(sorted(hit))}) shared by every instance of the class", fn.key, norm_stmt(_stmt(fn, n)))
     rep.count("definition_object_writes_examined", n_w)
+    if only is not None:
+        return
     # instance-time code must not write class-level attributes (shared by every instance of the class)
     n_cls = 0
     for fn in sorted(reach, key=lambda f: f.key):
@@ -449,13 +453,13 @@ def rule_defwrite(ctx: Ctx):
                 recv = show(n.value)
                 if recv in ("type(self)", "self.__class__") or recv in aliases:
                     n_cls += 1
-                    rep.violation("C16.defwrite", fn.loc(n), f"instance-time code `{fn.qualname}` writes the class attribute `{n.attr}`: what the first "
+                    rep.violation(rule, fn.loc(n), f"instance-time code `{fn.qualname}` writes the class attribute `{n.attr}`: what the first "
                                   "instance computes is reused by every later instance of the class", fn.key, norm_stmt(_stmt(fn, n)))
             if isinstance(n, ast.Call) and isinstance(n.func, ast.Name) and n.func.id == "setattr" and n.args and \
                     (show(n.args[0]) in ("type(self)", "self.__class__") or show(n.args[0]) in aliases):
-                rep.violation("C16.defwrite", fn.loc(n), f"instance-time code `{fn.qualname}` sets an attribute on the class", fn.key, norm_stmt(n))
+                rep.violation(rule, fn.loc(n), f"instance-time code `{fn.qualname}` sets an attribute on the class", fn.key, norm_stmt(n))
     if not n_cls:
-        rep.ok("C16.defwrite", "package", "no instance-time function writes a class-level attribute", functions=len(reach))
+        rep.ok(rule, "package", "no instance-time function writes a class-level attribute", functions=len(reach))
 
 
 def _fresh_receiver(ctx: Ctx, fn: FuncInfo, tgt: ast.AST):
